@@ -40,6 +40,9 @@ type Event struct {
 // ErrAborted is returned to gorm when the simulator tears a run down.
 var ErrAborted = errors.New("simpool: run aborted by the simulator")
 
+// ErrCommitRefused is what a refused Commit returns (Pool.RefuseCommit).
+var ErrCommitRefused = errors.New("simpool: commit refused by the wrapper")
+
 type Pool struct {
 	DB    *sql.DB
 	Drv   *simdrv.Sim
@@ -69,6 +72,10 @@ type Pool struct {
 	aborted  bool
 	// ValueTx: BeginTx returns its transaction wrapper by value (TxV) instead of a pointer.
 	ValueTx bool
+	// RefuseCommit: Tx.Commit fails without reaching *sql.Tx (the transaction stays open
+	// until somebody rolls it back); RefusedCommits counts those calls.
+	RefuseCommit   bool
+	RefusedCommits int
 }
 
 func New(db *sql.DB, drv *simdrv.Sim) *Pool {
@@ -406,6 +413,14 @@ func (t *Tx) finish() {
 
 func (t *Tx) Commit() error {
 	t.p.enter("commit")
+	if t.p.RefuseCommit {
+		// a wrapper that fails before it delegates (a limiter, a tracer that checks its
+		// own state first): the transaction is not finished by this call
+		t.p.RefusedCommits++
+		t.p.record(Event{Kind: "commit", Err: ErrCommitRefused.Error(), InTx: true, Note: "refused"})
+		t.p.leave("commit")
+		return ErrCommitRefused
+	}
 	t.waitWatcher()
 	err := t.tx.Commit()
 	t.p.record(Event{Kind: "commit", Err: errStr(err), InTx: true})
